@@ -217,7 +217,7 @@ def run(ctx):
             if isinstance(got, list): got = sorted(set(got))      # answers are sets of defs (an `is` list naming a def twice repeats it)
             if got != v:
                 ctx.report('ns.%s:%s' % (k, s['mode']), 'defs %s: %s(%s%s)%s = %s, the graph gives %s' % (json.dumps(s['graph']), k, bytes.fromhex(s['sym']).decode(), ', ' + bytes.fromhex(s['base']).decode() if 'fits' in k or k == 'filter' else '',
-                           ' on record %s' % json.dumps(s['rec']) if s['rec'] is not None else '', json.dumps(nat.get(k)), json.dumps(v)), case=s['native_case'])
+                           ' on record %s' % json.dumps(s['rec']) if s['rec'] is not None else '', json.dumps(nat.get(k)), json.dumps(v)), case=dict(s['native_case'], _expect=want))
                 break
     ctx.cov['traces_validated_against_impl'] += validated
     ctx.cov['unsupported_paths'] = dict(unsup)
@@ -231,4 +231,10 @@ def replay(ctx, path):
     case = json.load(open(path))['case']
     r = native.run_cases(native.build(), [case])[0]
     print(json.dumps(r)[:600])
-    return 1 if ('panic' in r or 'hang' in r or 'abort' in r) else 0
+    if 'panic' in r or 'hang' in r or 'abort' in r: return 1
+    want = case.get('_expect') or {}
+    for k, v in want.items():
+        got = r['ok'].get(k)
+        if isinstance(got, list): got = sorted(set(got))
+        if got != v: print('%s: %s, the graph gives %s' % (k, got, v)); return 1
+    return 0
